@@ -55,6 +55,8 @@ def g_call_table(ent, ok="Ok tt"):
 def make_source_mapper(env, ent):
     """j-th call: allocates hot source (numbered next) and returns it, or raises"""
     calls = [0]
+    if hasattr(env, "resets"):
+        env.resets.append(lambda: calls.__setitem__(0, 0))     # a second subscription starts the count again
 
     def mapper(*args):
         j = calls[0]
@@ -65,6 +67,31 @@ def make_source_mapper(env, ent):
             raise UserError(e[1])
         return src.observable
     return mapper
+
+
+class CountingSubject:
+    """mixin marker: subjects made by a harness factory (so that a shared / reused one would show)"""
+
+
+def make_subject_factory(env, ent, kind):
+    """subject_mapper of group_by / group_by_until: j-th call returns a NEW subject (plain Subject or a
+    subclass of it) or raises by the table"""
+    from reactivex.subject import Subject
+
+    class MySubject(Subject, CountingSubject):
+        pass
+    calls = [0]
+    if hasattr(env, "resets"):
+        env.resets.append(lambda: calls.__setitem__(0, 0))
+
+    def factory():
+        j = calls[0]
+        calls[0] += 1
+        e = ent[j] if j < len(ent) else ("ok", None)
+        if e[0] == "raise":
+            raise UserError(e[1])
+        return MySubject() if kind == "subclass" else Subject()
+    return factory
 
 
 def val_table(rng, kind, p_raise=0.1):
@@ -199,24 +226,47 @@ def table():
         with_elem = rng.random() < 0.6
         et = val_table(rng, "elem") if with_elem else {i: ("ok", i) for i in range(POOL.K)}
         dt = call_table(rng, code=84) if until else None
+        short = rng.random() < 0.5          # which spelling of the optional arguments (decided here: build may run twice)
+        # subject_mapper (4th argument of group_by_until, 3rd of group_by): absent / a plain factory / a
+        # factory of a Subject subclass / a factory raising at seeded invocations
+        r = rng.random()
+        sm = None if r < 0.55 else ("plain" if r < 0.7 else ("subclass" if r < 0.8 else "table"))
+        st = None
+        if sm is not None:
+            st = call_table(rng, p_raise=0.25 if sm == "table" else 0.0, code=85)
 
         def build(env, ss):
             key, elem = py_table(kt, "key"), (py_table(et, "elem") if with_elem else None)
+            fac = make_subject_factory(env, st, sm) if sm is not None else None
             if until:
-                return ss[0].pipe(ops.group_by_until(key, elem, make_source_mapper(env, dt)))
-            return ss[0].pipe(ops.group_by(key, elem) if with_elem or rng.random() < 0.5 else ops.group_by(key))
+                if fac is None:
+                    return ss[0].pipe(ops.group_by_until(key, elem, make_source_mapper(env, dt)))
+                return ss[0].pipe(ops.group_by_until(key, elem, make_source_mapper(env, dt), fac))
+            if fac is not None:
+                return ss[0].pipe(ops.group_by(key, elem, fac))
+            return ss[0].pipe(ops.group_by(key, elem) if with_elem or short else ops.group_by(key))
         dur = g_call_table(dt, "Ok true") if until else "(fun _ => Ok false)"
-        return dict(build=build, coq=f"x_group_by_until {g_val_table(kt, 'key')} {g_val_table(et, 'elem')} {dur}",
-                    n_static=1, spec=("group", kt, et, dt), dynamic=4 if until else 0, keyed=True, **WIN)
+        subj = g_call_table(st) if st is not None else "(fun _ => Ok tt)"
+        return dict(build=build,
+                    coq=f"x_group_by_until_sm {g_val_table(kt, 'key')} {g_val_table(et, 'elem')} {dur} {subj}",
+                    n_static=1, spec=("group", kt, et, dt, st), dynamic=4 if until else 0, keyed=True,
+                    subject_mapper=sm, **WIN)
     T["group_by"] = g_group
     T["group_by_until"] = lambda rng: g_group(rng, True)
 
-    def g_partition(rng):
+    def g_partition(rng, indexed=False):
         pt = val_table(rng, "pred")
-        indexed = False
-        return dict(build=lambda env, ss: ss[0].pipe(ops.partition(py_table(pt, "pred"))),
-                    coq=f"{g_val_table(pt, 'pred')}", n_static=1, spec=("partition", pt), outputs=True, **WIN)
+        if not indexed:
+            return dict(build=lambda env, ss: ss[0].pipe(ops.partition(py_table(pt, "pred"))),
+                        coq=f"{g_val_table(pt, 'pred')}", n_static=1, spec=("partition", pt, False), outputs=True,
+                        **WIN)
+        # predicate_indexed(x, i) = table[(id(x) + i) mod K]: the verdict depends on BOTH arguments
+        f = py_table(pt, "pred")
+        return dict(build=lambda env, ss: ss[0].pipe(ops.partition_indexed(lambda v, i: f(POOL.val((POOL.id(v) + i) % POOL.K)))),
+                    coq=f"(fun x i => {g_val_table(pt, 'pred')} ((x + Z.of_nat i) mod {POOL.K}))", n_static=1,
+                    spec=("partition", pt, True), outputs=True, indexed=True, **WIN)
     T["partition"] = g_partition
+    T["partition_indexed"] = lambda rng: g_partition(rng, True)
     return T
 
 
@@ -276,15 +326,20 @@ def gen_output_subs(rng):
     return acts
 
 
-IMPORTS = "Base.Prelude Base.CaseLib Ops.Machine Ops.MultiWin Ops.MultiWinCase Ops.Windows Ops.Groups"
+IMPORTS = ("Base.Prelude Base.CaseLib Ops.Machine Ops.MultiWin Ops.MultiWinCase Ops.Windows Ops.Groups "
+           "Ops.GroupsSubject Ops.GroupsIndexed")
 
 
-def run_case(inst, evs, policy, disp, outsubs=None):
+def run_case(inst, evs, policy, disp, outsubs=None, warm=None):
     horizon = None
     if inst.get("sched"):
         horizon = max([e[0] for e in evs] + [disp or 0]) + 70
     return k2w.run_win(inst["build"], inst["n_static"], evs, policy, use_scheduler=bool(inst.get("sched")),
-                       dispose_at=disp, outputs=bool(inst.get("outputs")), sub_outputs=outsubs, horizon=horizon)
+                       dispose_at=disp, outputs=bool(inst.get("outputs")), sub_outputs=outsubs, horizon=horizon,
+                       warmup=warm)
+
+
+P_WARMUP = 0.35
 
 
 def make_case(T, seed, name, ci, p_dispose=0.2):
@@ -303,7 +358,19 @@ def make_case(T, seed, name, ci, p_dispose=0.2):
         outsubs = gen_output_subs(rng)
     elif rng.random() < p_dispose and evs:
         disp = rng.choice(evs)[0] + rng.choice([0, 0, 5])
-    return inst, evs, policy, disp, outsubs
+    # SECOND SUBSCRIPTION: in 35% of the cases the measured subscription is preceded by an abandoned one of the
+    # same observable object(s) (drawn last, so that the cases without it are the ones generated before)
+    warm = None
+    if rng.random() < P_WARMUP:
+        if inst.get("outputs"):
+            # the published subject is shared by construction: a terminal in the warm-up would stop it for good
+            # (modelled as pt_stopped, reached by the measured timeline itself); elements only
+            wev = [(0, 0, ("N", POOL.val(rng.randrange(POOL.K)))) for _ in range(rng.choice([1, 2, 3]))]
+            warm = dict(events=wev, outputs=rng.choice([(0, 1), (0, 1), (0,), (1,)]))
+        else:
+            warm = dict(events=gen_timeline(rng, nsrc, inst.get("grid", ()), maxlen=3, nonconforming=0.0),
+                        windows=rng.choice(["all", "all", "first", "none"]))
+    return inst, evs, policy, disp, outsubs, warm
 
 
 def replay_case(path):
@@ -314,8 +381,8 @@ def replay_case(path):
     if not rc:
         return "no replay_case in file", json.dumps(d, indent=1)
     T = table()
-    inst, evs, policy, disp, outsubs = make_case(T, rc["seed"], rc["name"], rc["index"])
-    res = run_case(inst, evs, policy, disp, outsubs)
+    inst, evs, policy, disp, outsubs, warm = make_case(T, rc["seed"], rc["name"], rc["index"])
+    res = run_case(inst, evs, policy, disp, outsubs, warm)
     res["dispose_at"] = disp
     v = oracle(rc["name"], inst, res)
     if res["escapes"]:
@@ -325,6 +392,7 @@ def replay_case(path):
              f"source events : {evs!r}",
              f"policy        : {policy.describe()}",
              f"outer dispose : {disp}   output subscriptions: {outsubs}",
+             f"warm-up       : {warm!r}   (an earlier, abandoned subscription of the same observable)",
              f"inputs        : {k2w.g_inputs(res['inputs'], enc_val)}",
              f"observed      : {k2w.g_trace(res, inst['enc_w'], inst['enc_b'], enc_key)}",
              f"oracle        : {v or 'satisfied'}"]
@@ -341,13 +409,17 @@ def run_ops(chk, pid, names, ncase=None, p_dispose=0.2):
     hist = {"with_outer_dispose": 0, "same_instant_events": 0, "ticks_delivered": 0, "falsy_elements": 0,
             "falsy_keys": 0, "event_exactly_at_a_timer_edge": 0, "late_window_subscription": 0,
             "never_subscribed_window": 0, "window_unsubscribed_early": 0, "windows_handed": 0,
-            "outer_ended_while_window_subscriber_live": 0}
+            "outer_ended_while_window_subscriber_live": 0, "second_subscription_after_warmup": 0}
     for name in names:
         for ci in range(ncase):
-            inst, evs, policy, disp, outsubs = make_case(T, chk.seed, name, ci)
+            inst, evs, policy, disp, outsubs, warm = make_case(T, chk.seed, name, ci)
             if disp is not None:
                 hist["with_outer_dispose"] += 1
-            res = run_case(inst, evs, policy, disp, outsubs)
+            if warm is not None:
+                hist["second_subscription_after_warmup"] += 1
+            if inst.get("subject_mapper"):
+                hist["subject_mapper_" + inst["subject_mapper"]] = hist.get("subject_mapper_" + inst["subject_mapper"], 0) + 1
+            res = run_case(inst, evs, policy, disp, outsubs, warm)
             chk.cov["evaluations"] += 1
             per_op[name] = per_op.get(name, 0) + 1
             if res["build_error"] is not None:
@@ -372,6 +444,7 @@ def run_ops(chk, pid, names, ncase=None, p_dispose=0.2):
                                "source events (time_ms, source, notification)": repr(evs),
                                "window subscription policy (per window g)": policy.describe(),
                                "outer dispose_at": disp, "output subscriptions": outsubs,
+                               "warm-up (earlier abandoned subscription)": repr(warm),
                                "inputs (now, event)": gi, "observed trace": gt, "what": v,
                                "replay_case": {"name": name, "seed": chk.seed, "index": ci},
                                "how": "harness/win_table.py: run_case(inst, events, policy, dispose_at) -> "
@@ -380,7 +453,7 @@ def run_ops(chk, pid, names, ncase=None, p_dispose=0.2):
             elif sum(1 for e in res["log"] if e[1] in ("emit", "win")) >= 2:
                 nontrivial.add(sig)
             if inst.get("outputs"):
-                key = ("partition",)
+                key = ("partition_indexed",) if inst.get("indexed") else ("partition",)
                 gal.setdefault(key, []).append((f"({inst['coq']}, {gi})", gt))
             else:
                 key = (inst["ty_b"], inst["eqb"])
@@ -390,6 +463,11 @@ def run_ops(chk, pid, names, ncase=None, p_dispose=0.2):
             prelude = ("Definition model (c : (Z -> res bool) * list (Z * inp Z)) := "
                        "canon (pt_run (fst c) (snd c)).\n")
             cty = "((Z -> res bool) * list (Z * inp Z)) * list (nat * obs Z unit)"
+            eq = "(trace_eqb Z.eqb (fun _ _ => true))"
+        elif key == ("partition_indexed",):
+            prelude = ("Definition model (c : (Z -> nat -> res bool) * list (Z * inp Z)) := "
+                       "canon (pti_run (fst c) (snd c)).\n")
+            cty = "((Z -> nat -> res bool) * list (Z * inp Z)) * list (nat * obs Z unit)"
             eq = "(trace_eqb Z.eqb (fun _ _ => true))"
         else:
             ty, eqb = key
@@ -800,12 +878,13 @@ def e_replay(inst, res, v):
 
 
 def e_group(inst, res, v):
-    _, kt, et, dt = inst["spec"]
+    _, kt, et, dt, st = inst["spec"]
     exp = Expect()
     acc = accepted_inputs(res, v)
     live = {}            # key class -> group
     durs = {}            # duration source -> key class
-    calls = 0
+    calls = 0            # invocations of the duration mapper
+    scalls = 0           # invocations of the subject factory (one per group creation, before the duration mapper)
 
     def fan(tag, code_or_exc):
         exp.to_all_open(tag, "E", code_or_exc)
@@ -829,6 +908,12 @@ def e_group(inst, res, v):
                     g = live[kc]
                 else:
                     # first time the key is seen, or seen again after its group expired
+                    se = (st[scalls] if scalls < len(st) else ("ok", None)) if st is not None else ("ok", None)
+                    scalls += 1
+                    if se[0] == "raise":
+                        # no subject, hence no group: everything errors
+                        fan(tag, UserError(se[1]))
+                        continue
                     de = (dt[calls] if calls < len(dt) else ("ok", None)) if dt is not None else ("ok", None)
                     calls += 1
                     if de[0] == "raise":
@@ -854,47 +939,74 @@ def e_group(inst, res, v):
 
 
 def o_partition(inst, res, v):
-    pt = inst["spec"][1]
+    """each subscription of output g (0: predicate holds, 1: it does not) receives exactly the elements whose
+    verdict selects g, in arrival order, and the source's terminal; a raising predicate errors that subscription.
+    partition_indexed: the index is the subscription's own element count (operators/_filter.py: `count` lives in
+    subscribe; "the predicate is executed once for each subscribed observer").  For a subscriber that joined
+    the shared connection late the statement does not say which index is meant: where the reading "position in
+    the connected source sequence" gives another verdict, either outcome is accepted."""
+    pt, indexed = inst["spec"][1], inst["spec"][2]
     ivs = {g: k2w.window_sub_intervals(v, g) for g in (0, 1)}
     want = {0: [], 1: []}
-    dead = {0: set(), 1: set()}      # subscriptions (by start tag) ended by a raising predicate
+    seen = {g: [(tag, *norm(k, val)) for (_, tag, k, val) in v["win"].get(g, [])] for g in (0, 1)}
+    cnt = {}                         # (g, subscription start) -> elements evaluated without raising
     stopped = None
+    conn_idx = 0                     # elements delivered since the present connection was made
+    same_index_at = {}               # tag -> both outputs' live subscriptions had the same index
     for st in v["steps"][1:]:
         i, tag = st["inp"], st["tag"]
         if i[0] == "subwin" and stopped is not None:
             want[i[1]].append((tag, *stopped))
+        if 0 in st["subs"]:
+            conn_idx = 0
         if i[0] != "src" or i[1] != 0 or 0 not in st["live_before"] or stopped is not None:
             continue
         ev = i[2]
         sent = []
+        idxs = []
         for g in (0, 1):
             for (a, b, how) in ivs[g]:
                 if a < tag and (b is None or b >= tag if how == "term" else (b is None or b > tag)):
                     if ev[0] == "N":
-                        pe = pt[POOL.id(ev[1])]
-                        if pe[0] == "raise":
-                            want[g].append((tag, "E", pe[1]))
-                        elif pe[1] == (g == 0):
-                            want[g].append((tag, "N", POOL.id(ev[1])))
-                            sent.append(g)
+                        c = cnt.get((g, a), 0)
+                        idxs.append(c)
+
+                        def outcome(index):
+                            pe = pt[(POOL.id(ev[1]) + index) % POOL.K] if indexed else pt[POOL.id(ev[1])]
+                            if pe[0] == "raise":
+                                return ("E", pe[1])
+                            return ("N", POOL.id(ev[1])) if pe[1] == (g == 0) else None
+                        out = outcome(c)
+                        if indexed and c != conn_idx and outcome(conn_idx) != out:
+                            got = next(((k, val) for (t, k, val) in seen[g] if t == tag), None)
+                            if got == outcome(conn_idx):
+                                out = got
+                        if out is None or out[0] == "N":
+                            cnt[(g, a)] = c + 1
+                        if out is not None:
+                            want[g].append((tag, *out))
+                            if out[0] == "N":
+                                sent.append(g)
                     else:
                         want[g].append((tag, *norm(ev[0], ev[1] if ev[0] == "E" else None)))
-        if ev[0] == "N" and len(set(sent)) > 1:
+        if ev[0] == "N":
+            conn_idx += 1
+            same_index_at[tag] = len(set(idxs)) <= 1
+        if ev[0] == "N" and len(set(sent)) > 1 and not indexed:
             return f"partition oracle inconsistency: input {tag}"
         if ev[0] != "N":
             stopped = norm(ev[0], ev[1] if ev[0] == "E" else None)
     for g in (0, 1):
-        seen = [(tag, *norm(k, val)) for (_, tag, k, val) in v["win"].get(g, [])]
-        if seen != want[g]:
-            return (f"partition output differs from the predicate: output {g} (subscriptions {ivs[g]}): subscriber saw {seen}, expected {want[g]} "
+        if seen[g] != want[g]:
+            return (f"partition output differs from the predicate: output {g} (subscriptions {ivs[g]}): subscriber saw {seen[g]}, expected {want[g]} "
                     f"(input position, kind, element id)")
-    # each element delivered to at most one output
+    # each element delivered to at most one output (indexed: when both subscribers are at the same index)
     by_tag = {}
     for g in (0, 1):
         for (_, tag, k, val) in v["win"].get(g, []):
             if k == "N":
                 by_tag.setdefault(tag, set()).add(g)
-    both = [t for t, s in by_tag.items() if len(s) > 1]
+    both = [t for t, s in by_tag.items() if len(s) > 1 and (not indexed or same_index_at.get(t, False))]
     if both:
         return f"partition delivered an element to both outputs: input {both[0]}"
     return None
